@@ -1,5 +1,6 @@
 //@unit vwma
 //@include head.rs
+//@export-begin
 
 //@extract src/methods/vwma.rs struct:VWMA
 //@end
@@ -75,5 +76,6 @@ pub proof fn vwma_const_step(pre: VWMA, v: (R, R), post: VWMA, out: R)
 	let (p, w, nr) = (v.0@, v.1@, n as real);
 	assert(nr * w != 0real && (nr * (p * w)) / (nr * w) == p) by(nonlinear_arith) requires nr >= 1real, w != 0real;
 }
+//@export-end
 } // verus!
 fn main() {}
